@@ -19,11 +19,16 @@ class NextRequest(Request, MutableMapping[str, Any]):
 
 
 def ensure_next(iterable: Iterable[bytes]) -> Iterable[bytes]:
-    first_chunk = iterable.__iter__().__next__()
+    iterator = iterable.__iter__()
+    try:
+        first_chunk = iterator.__next__()
+    except StopIteration:
+        return ()  # empty body
 
     def generator():
         yield first_chunk
-        yield from iterable
+        # continue with the SAME iterator: a list or tuple would start again
+        yield from iterator
 
     return generator()
 
